@@ -160,7 +160,7 @@ PROPS = {
         "death_is_violation": False,
         "rule": ("workspaces of 1-4 modules from the scope-aware generator (names from pools of 4-7 spellings per namespace, so shadowing is the norm; imports qualified, aliased, unqualified, unqualified-aliased, "
                  "type imports; all statement/expression/pattern forms); goto_definition is asked at the start and end offset of EVERY identifier the printer emitted and compared with the binding the generator "
-                 "recorded. A workspace is non-trivial if some module declares one spelling at least twice (shadowing); distinct by FNV-1a of its files; evaluations = goto queries. One workspace in three is split into two local packages (`app` depends on `lib` by path; imports only point from app to lib), so cross-package references, renames and completions are exercised."),
+                 "recorded. A workspace is non-trivial if some module declares one spelling at least twice (shadowing); distinct by FNV-1a of its files; evaluations = goto queries. One workspace in three is split into two local packages (`app` depends on `lib` by path; imports only point from app to lib), so cross-package references, renames and completions are exercised. Second engine (m_types, a quarter of the shards): well-typed programs from the type-directed generator; goto from every recorded use of a local (parameters, let / pattern / clause / use / lambda binders; some spelled like functions or like module accessors, incl. `x.field` on a local that shadows an imported module) must land on its binder."),
         "assumptions": [
             "soundness everywhere: an answer must be the recorded declaration (file + focus range as glas defines it per kind: name token; whole variant; whole `label: Type` field; `..name` spread; 0..0 for modules)",
             "completeness on the supported core only (DESIGN §5 C05): uses inside unary operands, guards, `todo as`, qualified constants and module qualifiers in pattern/type position are soundness-only",
@@ -230,10 +230,10 @@ PROPS = {
         "rule": ("generated workspaces with up to 2 placeholder identifiers per function at expression positions; the generator records the set of value names visible there (locals innermost-first, module functions/constants/"
                  "constructors, unqualified imports under their local names) and the module accessors. completions(cursor at end of placeholder) must offer exactly that set (keywords/snippets and the five built-in constructors ignored), "
                  "each item replacing exactly the placeholder, and after accepting an item goto on the inserted name must reach the recorded declaration (fresh host). At every qualified use `m.x` completion with trigger '.' "
-                 "must offer exactly m's public functions and constructors of public non-opaque types. non-trivial = hole with >= 3 visible names; distinct by (workspace seed, hole). One workspace in three is split into two local packages (`app` depends on `lib` by path; imports only point from app to lib), so cross-package references, renames and completions are exercised."),
+                 "must offer exactly m's public functions and constructors of public non-opaque types. non-trivial = hole with >= 3 visible names; distinct by (workspace seed, hole). One workspace in three is split into two local packages (`app` depends on `lib` by path; imports only point from app to lib), so cross-package references, renames and completions are exercised. Second engine (m_types): the `value.` clause on typed programs - for parameters, let variables and clause variables of every custom type of the workspace (and of Int, String, List, tuple, function types) completion after `v.` must offer exactly the labelled fields common to all variants (nothing for non-record types)."),
         "assumptions": [
             "expected sets come from the generator's own scoping, never from glas",
-            "`value.` field completion is checked on typed programs only (C09 engine), because scoped-mode programs may be ill-typed",
+            "`value.` field completion is checked on typed programs only (second engine m_types), because scoped-mode programs may be ill-typed",
         ],
     },
     "C14": {
@@ -264,10 +264,10 @@ PROPS = {
         "rule": ("(a) encoder, exhaustive: all documents of <=5 [thorough 6] symbols over {a, b, space, LF, 2-byte, 4-byte} x all position-sorted sets of disjoint single-line word ranges x rotating tags -> glas::convert::to_semantic_tokens -> "
                  "LSP decoder model: strictly increasing, non-empty, inside its line, type in legend, and decoded (line, UTF-16 start, length, type) == the model's for each range; (b) end to end: generated programs with non-ASCII strings "
                  "and comments -> Analysis::syntax_highlight -> encoder -> decoder, compared with the generator's sidecar (uses of functions -> function, constructor uses and constructor declaration names -> type, module qualifiers -> namespace, "
-                 "constants/types/fields/declaration names -> not highlighted, nothing highlighted that is not an identifier); range requests == intersecting sub-sequence of the full answer. Non-trivial = >=2 ranges and a multi-byte character."),
+                 "constants/types/fields/declaration names -> not highlighted, nothing highlighted that is not an identifier); range requests == intersecting sub-sequence of the full answer. Non-trivial = >=2 ranges and a multi-byte character. Third part (m_types engine): well-typed generated programs where the type of every local is known by construction - every use of a function-typed local must be tagged function and every use of a local of another type must carry no tag."),
         "exhaustive_scope": "encoder inputs over the small-document space; programs are sampled",
         "assumptions": [
-            "locals: the generator does not know whether a local is function-typed in scoped mode, either tag is accepted there (typed programs: see C09 engine)",
+            "locals: the generator does not know whether a local is function-typed in scoped mode, either tag is accepted there; typed programs (engine m_types) decide that clause",
             "the server-level path (textDocument/semanticTokens/full|range over stdio) is exercised by the black-box engine",
         ],
     },
@@ -380,7 +380,7 @@ PROPS = {
                  "and, one time in three, has a private build/packages/<name> with ANOTHER copy of one of them (other modules), 1-3 modules per package from a pool of 8 names incl. nested directories (equal module names in different packages are common), a test/ module, "
                  "and a free-standing file without gleam.toml; every package's entry module imports 5 module names sampled from the whole tree. A fresh real server per tree; entry modules and the free-standing file are opened root-first, "
                  "dependency-first or free-standing-first. textDocument/definition is asked on every qualified use, prepareRename on every resolved one, hover and glas/syntaxTree in the free-standing file. "
-                 "evaluations = trees; distinct by FNV-1a of the tree description."),
+                 "evaluations = trees; distinct by FNV-1a of the tree description. In half of the trees a registry dependency is then removed from the root's gleam.toml on disk and announced through workspace/didChangeWatchedFiles: prepareRename inside the removed package must still be refused (it lives under build/packages) and still be accepted in the root, and the root's imports must follow the new manifest."),
         "assumptions": [
             "layout rule (independent model): module name = path below src|test without extension; `import m` from package P may resolve only to a file named m in P or in a package P lists under [dependencies] (registry or path); "
             "if only a transitive or unrelated package has it the answer must be empty; several candidates: any; target URIs are compared after lexical normalisation (path dependencies come back as root/../pathdep/...); "
